@@ -27,10 +27,17 @@ Fixpoint lookup {B} (l : list (N * B)) (k : N) (d : B) : B :=
 (* glyph (g, face) -> image id; the harness numbers rasterised glyph images the same way *)
 Definition glyph_image (g f : N) : N := (1000 + 16 * g + f)%N.
 
-Definition mk_oracle (widths : list (N * N)) (isizes : list (N * (N * N))) : oracle :=
+Fixpoint nmem (k : N) (l : list N) : bool :=
+  match l with [] => false | x :: t => N.eqb k x || nmem k t end.
+
+(* fsp / fer: how a printed space / an erased cell of each face looks (identity where not listed);
+   ers: the faces without underline, strike or reverse attribute *)
+Definition mk_oracle (widths : list (N * N)) (isizes : list (N * (N * N)))
+           (fsp fer : list (N * N)) (ers : list N) : oracle :=
   mkoracle (fun ch => N.to_nat (lookup widths ch 1%N))
            (fun i => let '(a, b) := lookup isizes i (1%N, 1%N) in (N.to_nat a, N.to_nat b))
-           glyph_image.
+           glyph_image
+           (fun f => lookup fsp f f) (fun f => lookup fer f f) (fun f => nmem f ers).
 
 (* case files are written with N literals only *)
 Definition to (r c : N) : cmd := CCursorTo (N.to_nat r) (N.to_nat c).
@@ -41,6 +48,7 @@ Definition unimg_all (i : N) : cmd := CImageErase i None.
 
 Inductive c01_case :=
   Hist (h w : N) (widths : list (N * N)) (isizes : list (N * (N * N)))
+       (fsp fer : list (N * N)) (ers : list N)
        (ops : list op) (impl : list (list cmd)) (overlap : bool).
 
 Definition cmd_eqb (a b : cmd) : bool :=
@@ -61,10 +69,10 @@ Definition drawn_surfaces (ops : list op) : list (grid cell) :=
 
 Definition c01_check (k : c01_case) : bool * bool :=
   match k with
-  | Hist hN wN widths isizes ops impl overlap =>
+  | Hist hN wN widths isizes fsp fer ers ops impl overlap =>
       let h := N.to_nat hN in
       let w := N.to_nat wN in
-      let o := mk_oracle widths isizes in
+      let o := mk_oracle widths isizes fsp fer ers in
       let surfs := drawn_surfaces ops in
       let dom := forallb (in_domain o h w) surfs in
       let ovl := negb (forallb (overlap_free o h w) surfs) in
